@@ -99,6 +99,7 @@ type World struct {
 	qhist   map[string]*qHist
 	openedAt int64 // simulated time of the last engine.Open
 	vioFault *OpFault
+	confineRoot string // when set, file-system calls must stay below it (C19); default: the run's scratch root
 
 	evMu   sync.Mutex
 	Events []EvRec // disk events of the current op window
@@ -198,6 +199,9 @@ func (w *World) checkConfined(ev *verifos.Event) {
 		}
 		ap = filepath.Clean(ap)
 		root := filepath.Clean(w.Scratch)
+		if w.confineRoot != "" {
+			root = filepath.Clean(w.confineRoot)
+		}
 		if ap != root && !strings.HasPrefix(ap, root+string(filepath.Separator)) {
 			w.evMu.Lock()
 			w.Outside = append(w.Outside, ev.Op+" "+p)
